@@ -24,4 +24,7 @@ theorem obj20 : GenV20.obj_fields = ["u0:uint8", "u1:uint8", "u2:uint8", "u3:uin
 theorem effects20 : GenV20.obj_ptr_effects = ["Set:writes"] := by decide
 /-- `sync.Pool`s of the package: `splitPool.New` makes a 14-slot `[]string` (the buffer length every v2.0 parser theorem assumes: `buf.length = 14`), `ParseVector` is the only user, it takes one buffer and hands the SAME variable back, deferred (so on every path) -/
 theorem pool20 : GenV20.pool_new = ["splitPool:New=make([]string, 14)"] ∧ GenV20.pool_uses = ["ParseVector:v0 := splitPool.Get()", "ParseVector:defer splitPool.Put(v0)"] := by decide
+/-- the package imports exactly these standard packages (no `os`, `time`, `runtime`, `reflect`, `C`, no module-internal package:
+    nothing through which the environment, the clock, the scheduler or foreign code could reach the translated functions) -/
+theorem imports20 : GenV20.pkg_imports = ["errors", "fmt", "math", "strings", "sync", "unsafe"] := by decide
 end StateTie
